@@ -150,7 +150,9 @@ func classes() []classDef {
 		{"pubUDP6", true, true, true, 16, func(c int) string { return "/ip6/2604:1::" + hx(c) + "/udp/4001/quic-v1" }},
 		{"pubTCP4", true, false, false, 18, func(c int) string { return "/ip4/12." + abc(c) + "/tcp/4001" }},
 		{"pubTCP6", true, false, true, 12, func(c int) string { return "/ip6/2604:2::" + hx(c) + "/tcp/4001" }},
-		{"nat64UDP6", true, true, true, 2, func(c int) string { return fmt.Sprintf("/ip6/64:ff9b::b%02x:%x/udp/4001/quic-v1", ((c+1)>>16)&255, (c+1)&0xffff) }},
+		{"nat64UDP6", true, true, true, 2, func(c int) string {
+			return fmt.Sprintf("/ip6/64:ff9b::b%02x:%x/udp/4001/quic-v1", ((c+1)>>16)&255, (c+1)&0xffff)
+		}},
 		{"privUDP4", false, true, false, 8, func(c int) string { return "/ip4/10." + abc(c) + "/udp/4001/quic-v1" }},
 		{"privTCP4", false, false, false, 5, func(c int) string { return fmt.Sprintf("/ip4/192.168.%d.%d/tcp/4001", (c>>8)&255, c&255) }},
 		{"privUDP6", false, true, true, 4, func(c int) string { return "/ip6/fd00::" + hx(c) + "/udp/4001/quic-v1" }},
@@ -373,7 +375,7 @@ type dialObs struct {
 	Skipped  bool      `json:"skipped,omitempty"` // redial with no connected peer
 	OK       bool      `json:"ok"`
 	Err      string    `json:"err,omitempty"`
-	Handed   []*recObs `json:"handed_to_transport"` // per address of the spec; null: never handed to a transport
+	Handed   []*recObs `json:"handed_to_transport"`  // per address of the spec; null: never handed to a transport
 	BHErr    []bool    `json:"reported_black_holed"` // per address: DialError lists it with ErrDialRefusedBlackHole
 	IsBH     bool      `json:"is_black_hole_error,omitempty"`
 	NoGood   bool      `json:"no_good_addresses,omitempty"`
